@@ -19,6 +19,7 @@ EXPLANATION = (
     "ambiguous kinds are silent. Rule C07.R3 (sibling call sites): a helper that reset calls with exactly the value it "
     "stores in a state field is, when step calls it too, given the value step stores in that field or an intermediate, "
     "never the superseded field of the incoming state (e.g. Snake samples the new fruit against the NEW body). Not decided: entity counts, position/grid agreement, conservation laws (numeric).")
+EXPLANATION += " (R5) border tests: every comparison of a coordinate (a term the code uses as a grid subscript, or a position moved by a displacement) with 0 or with an extent of the grid is one of the four exact tests >= 0, < 0, < extent, >= extent (B1), and in every boolean formula built from such tests a coordinate outside the grid decides the formula by itself -- truth table over the formula's own atoms (B2); Maze, Cleaner, Snake, SlidingTilePuzzle, Connector, LevelBasedForaging (rules/bounds_rules.py)."
 EXPLANATION += ' (R4) Connector: an action the mask forbids (connected agent) is not executed by step (borrowed from C04.R3b, one direction only).'
 
 GRID_WORLDS = ("Maze", "Cleaner", "PacMan", "Sokoban", "Snake", "Tetris", "Game2048", "Minesweeper", "Connector",
@@ -34,6 +35,10 @@ def check(tier: str) -> Result:
     from . import wiring
     n_w = wiring.add_obligations(res, tree, "C07.R2", lambda ci: ci.module.name.startswith("jumanji.environments.") and not ci.module.name.endswith((".reward", ".done", ".types")))
     n_p = wiring.paired_call_args(res, tree, "C07.R3", "state", lambda ci: ci.name in GRID_WORLDS)
+    from . import bounds_rules
+    n_bd = bounds_rules.add_obligations(res, tree, "C07.R5", scope="all")
+    if n_bd < 30:
+        raise AnalysisError(f"only {n_bd} border-test obligations derived (hand-confirmed minimum 30)")
     from .common import borrow
     n_b = borrow(res, "c04", {"C04.R3b": "C07.R4"}, envs=["Connector"], only_if=lambda ob: "mask forbids" in ob.detail)
     per = {k.split(":")[1]: v for k, v in res.extra.get("axis_sites_per_environment", {}).items()}
